@@ -77,8 +77,9 @@ def ty(t) -> str:
         else:
             mx = a.data_type.bit_length_set.max or 0
             attrs.append('(plain %s %s %s %s)' % (di(a), b(test('Field', a)), b(mx % 8 == 0), enc(a.doc)))
-    return '(comp %s %d %d %s %s %s %s %s %s %s%s)' % (
-        enc(t.full_name), t.version[0], t.version[1], enc(t.root_namespace), b(test('deprecated', t)),
+    return '(comp %s %d %d %s %s %s %s %s %s %s %s %s%s)' % (
+        enc(t.full_name), t.version[0], t.version[1], enc(t.root_namespace), enc(t.full_namespace), b(t.has_parent_service),
+        b(test('deprecated', t)),
         str(t.fixed_port_id) if t.has_fixed_port_id else '-', b(test('UnionType', t)),
         b(test('ServiceType', t)), b(test('service_request', t)), enc(t.doc), ''.join(' ' + x for x in attrs))
 
@@ -159,9 +160,9 @@ def selftest(req: dict) -> dict:
     class T:
         pass
     tags = []
-    for full, major, minor, root in req.get('tag', []):
+    for full, major, minor, root, fullns, haspar in req.get('tag', []):
         t = T()
-        t.full_name, t.version, t.root_namespace = full, V(major, minor), root
+        t.full_name, t.version, t.root_namespace, t.full_namespace, t.has_parent_service = full, V(major, minor), root, fullns, haspar
         tags.append([filter_tag_id(t), filter_url_from_type(t)])
     out['tag'] = tags
     # the autoescape decision exactly as CodeGenEnvironment configures it
